@@ -25,7 +25,11 @@ SPEC = {
              "move-construction of it (and o itself for B = K); every plain T on the result, oracle = its dynamic type. EMPTY STATES "
              "(generated): every public constructor that takes (pointer, length) / string / container / iterator pair handed nothing, every "
              "container or string setter given an empty value, every non-const container getter cleared (also on an object looked up before), "
-             "each alone and as innermost layer of IP/UDP/x, all seven helpers, every T. "
+             "each alone and as innermost layer of IP/UDP/x, all seven helpers, every T. WRAPPERS AROUND A CHAIN: for every PDUCacher<X> and every "
+             "plain class Y the wrapper built from the packets X/Y and X/Y/RawPDU (thorough: also X/Y/Z, Y in {IP,UDP,TCP,SNAP,Dot11Data,"
+             "EthernetII}, every plain Z), alone, as inner layer of an EthernetII and with an inner TCP of its own; every T, all seven helpers; "
+             "a wrapper answering for anything but itself is wrongtype:*, except for its wrapped class X (and X's bases X answers to), which "
+             "stays the known wrapper-alias:* finding. "
              "Signatures: wrongtype:<search|cast>:<K>-as-<T> (a wrong flag table entry / override), notfound:<search>:<T>, and "
              "wrapper-alias:<search|cast>:<kind> for the one root cause 'PDUCacher<X> carries X's flag' (only when, after unwrapping "
              "wrapper(s), the object really is what was asked for). evaluations = (chain, T) pairs, each with all 7 helpers; "
